@@ -126,7 +126,7 @@ def main(argv=None):
 
     # ---------------------------------------------------------------- collect
     known = load_known(prop)
-    ledger_path = os.path.join(HERE, 'baseline', 'obligations.json')
+    ledger_path = os.environ.get('KVC_LEDGER') or os.path.join(HERE, 'baseline', 'obligations.json')      # KVC_LEDGER: development runs against a frozen copy
     ledger_all = json.load(open(ledger_path)) if os.path.exists(ledger_path) else {}
     ledger = ledger_all.get(prop, {})
     clauses = {}          # clause id -> list of obligation dicts (one per path)
